@@ -6,6 +6,8 @@ carries a tag.  The evaluator wrapper appends (env tag, learner tag, evaluator t
 `CALLS` whenever coba asks it to evaluate a triple, so a harness can tell which triples a (resumed) run really
 evaluated.  Tags survive the deep copy coba makes of a learner that occurs in several triples.
 """
+import base64, hashlib
+
 from coba.learners import RandomLearner, BanditEpsilonLearner
 from coba.evaluators import SequentialCB
 from coba.primitives import Learner, Evaluator, Environment, SimulatedInteraction
@@ -63,11 +65,30 @@ class TinyEnv(Environment):
             yield SimulatedInteraction([round(x, 5), i], [[0.25], [0.75]], [round(x * 0.5, 5), round(1 - x, 5)])
 
 
+class BlobEval(Evaluator):
+    """Yields `rows` rows that carry a `width`-character pseudo-random (hardly compressible, ASCII) string, so that the ONE
+    interaction record of its triple is several 64 KiB blocks long in a plain and in a .gz result file."""
+    def __init__(self, rows, width):
+        self.rows, self.width = rows, width
+
+    @property
+    def params(self): return {'rows': self.rows, 'width': self.width}
+
+    def evaluate(self, environment, learner):
+        for i in range(self.rows):
+            blob = ''
+            j = 0
+            while len(blob) < self.width:
+                blob += base64.b64encode(hashlib.sha256(b'c02-%d-%d' % (i, j)).digest()).decode('ascii').rstrip('=')
+                j += 1
+            yield {'reward': float(i % 2), 'blob': blob[:self.width]}
+
+
 def _syn(n, seed):
     return TinyEnv(n, seed)
 
 
-SHAPES = ('S1', 'S2', 'S4')
+SHAPES = ('S1', 'S2', 'S4', 'S5')
 
 
 def base_triples(shape):
@@ -75,6 +96,7 @@ def base_triples(shape):
     if shape == 'S1': return [('e0', 'l0', 'v0')]
     if shape == 'S2': return [('e0', 'l0', 'v0'), ('e0', 'l1', 'v0'), ('e1', 'l0', 'v0'), ('e1', 'l1', 'v0')]
     if shape == 'S4': return [('e0', 'l0', 'v0'), ('e1', 'l0', 'v0'), ('e0', 'l1', 'v1'), ('e0', 'l0', 'v1')]
+    if shape == 'S5': return [('e0', 'l0', 'v0'), ('e0', 'l0', 'v1'), ('e1', 'l0', 'v0')]
     raise ValueError(shape)
 
 
@@ -87,6 +109,8 @@ def components(shape):
     elif shape == 'S4':      # explicit triple list: learner l0 shared by three triples (deep-copied per task), two evaluators (one records time)
         objs = {'e0': _syn(3, 1), 'e1': _syn(2, 2), 'l0': BanditEpsilonLearner(0.1, seed=2), 'l1': RandomLearner(seed=9),
                 'v0': SequentialCB(), 'v1': SequentialCB(record=['reward', 'time'])}
+    elif shape == 'S5':      # one interaction record (e0,l0,v1) longer than 3 x 64 KiB (plain) / 2 x 64 KiB (.gz) between small records
+        objs = {'e0': _syn(2, 1), 'e1': _syn(2, 2), 'l0': RandomLearner(seed=3), 'v0': SequentialCB(), 'v1': BlobEval(56, 4096)}
     else:
         raise ValueError(shape)
     wrap = {'e': RecEnv, 'l': RecLearner, 'v': RecEval}
